@@ -1,6 +1,9 @@
 //@unit bw_dec
 //@serves C01 C03 C10
 //@backend verus
+// every function in its own Z3 process: the shared lemma_codec32 (div/mod under reveal(byte_of)) is
+// unstable when it shares a solver context with this unit's recursive spec functions (rlimit at 10 s)
+//@verus-arg -V spinoff-all
 // bigwigread::get_block_values: one (uncompressed) bigWig data block -> the values of chromosome
 // `chrom` overlapping [start, end), clipped, in stored order.  Section types 1 (bedGraph),
 // 2 (variable step), 3 (fixed step), both byte orders (symbolic `endianness`).
@@ -114,10 +117,209 @@ pub proof fn lemma_fc_step(raw: Seq<Value>, i: int, s: u32, e: u32)
     assert(raw.subrange(0, i + 1).drop_last() =~= raw.subrange(0, i));
     assert(raw.subrange(0, i + 1).last() == raw[i]);
 }
+// ---------------- C03 corollaries of the exact statement ----------------
+/// stored order is ascending and non-overlapping (what the writer guarantees, C01 / bw_batch)
+pub open spec fn ascending(a: Seq<Value>) -> bool {
+    &&& forall|i: int| 0 <= i < a.len() ==> (#[trigger] a[i]).start <= a[i].end
+    &&& forall|i: int, j: int| 0 <= i < j < a.len() ==> (#[trigger] a[i]).end <= (#[trigger] a[j]).start
+}
+/// "each clipped to the range, in ascending order": every returned value lies inside [s, e), is a
+/// well-ordered interval, and the result is ascending / non-overlapping whenever the stored items are
+/// (`m`: any bound on the stored ends; only used to carry the induction)
+pub proof fn lemma_fc_inside_and_ascending(raw: Seq<Value>, s: u32, e: u32, m: int)
+    requires
+        ascending(raw), s <= e,
+        forall|i: int| 0 <= i < raw.len() ==> (#[trigger] raw[i]).end <= m,
+    ensures
+        [[L: fc/no_more_than_stored]]
+        filter_clip(raw, s, e).len() <= raw.len(),
+        [[L: fc/inside_query_range]]
+        forall|j: int| 0 <= j < filter_clip(raw, s, e).len() ==>
+            s <= (#[trigger] filter_clip(raw, s, e)[j]).start && filter_clip(raw, s, e)[j].end <= e && filter_clip(raw, s, e)[j].end <= m,
+        [[L: fc/ascending_non_overlapping]]
+        ascending(filter_clip(raw, s, e)),
+    decreases raw.len()
+{
+    if raw.len() > 0 {
+        let p = raw.drop_last(); let l = raw.last();
+        assert(l == raw[raw.len() - 1]);
+        assert forall|i: int| 0 <= i < p.len() implies (#[trigger] p[i]).start <= p[i].end && p[i].end <= l.start by { assert(p[i] == raw[i]); }
+        assert forall|i: int, j: int| 0 <= i < j < p.len() implies (#[trigger] p[i]).end <= (#[trigger] p[j]).start by { assert(p[i] == raw[i]); assert(p[j] == raw[j]); }
+        lemma_fc_inside_and_ascending(p, s, e, l.start as int);
+        let fp = filter_clip(p, s, e);
+        if keep(l, s, e) {
+            let f = fp.push(clip(l, s, e));
+            assert(filter_clip(raw, s, e) == f);
+            assert forall|j: int| 0 <= j < f.len() implies s <= (#[trigger] f[j]).start && f[j].end <= e && f[j].end <= m && f[j].start <= f[j].end by {
+                if j < fp.len() { assert(f[j] == fp[j]); }
+            }
+            assert forall|i: int, j: int| 0 <= i < j < f.len() implies (#[trigger] f[i]).end <= (#[trigger] f[j]).start by {
+                assert(f[i] == fp[i]);
+                if j < fp.len() { assert(f[j] == fp[j]); }
+            }
+        } else {
+            assert(filter_clip(raw, s, e) == fp);
+        }
+    }
+}
 pub proof fn lemma_step_mul(k: int, step: int)
     ensures (k + 1) * step == k * step + step
 {
     assert((k + 1) * step == k * step + step) by (nonlinear_arith);
+}
+
+// BEGIN fmt_bw_section (textually identical copy of the block in bw_enc/unit.rs.tpl)
+/// 24-byte section header: chromId, chromStart, chromEnd, itemStep = 0, itemSpan = 0,
+/// type = 1 (bedGraph), reserved = 0, itemCount (u16)
+pub open spec fn bw_header(chrom: u32, start: u32, end: u32, n: u16) -> Seq<u8> {
+    (Seq::<u8>::empty() + le32(chrom) + le32(start) + le32(end) + le32(0u32) + le32(0u32)).push(1u8).push(0u8) + le16(n)
+}
+/// one 12-byte bedGraph item appended to `b` (left-associated, the order a sequential writer produces)
+pub open spec fn put_bw_item(b: Seq<u8>, v: Value) -> Seq<u8> {
+    b + le32(v.start) + le32(v.end) + le32(f32_bits(v.value))
+}
+pub open spec fn fmt_bw_items(hdr: Seq<u8>, items: Seq<Value>) -> Seq<u8>
+    decreases items.len()
+{
+    if items.len() == 0 { hdr } else { put_bw_item(fmt_bw_items(hdr, items.drop_last()), items.last()) }
+}
+pub open spec fn fmt_bw_section(chrom: u32, items: Seq<Value>) -> Seq<u8> {
+    fmt_bw_items(bw_header(chrom, items[0].start, items.last().end, items.len() as u16), items)
+}
+// END fmt_bw_section
+
+// ---------------- C01: writer layout read back by the reader's vocabulary ----------------
+/// what unit bw_enc requires of a batch (copied from bw_enc: `batch_ok`)
+pub open spec fn batch_ok(items: Seq<Value>) -> bool {
+    &&& 1 <= items.len() <= 65535
+    &&& forall|i: int| 0 <= i < items.len() ==> (#[trigger] items[i]).start <= items[i].end
+    &&& forall|i: int, j: int| 0 <= i < j < items.len() ==> (#[trigger] items[i]).end <= (#[trigger] items[j]).start
+}
+pub proof fn lemma_fmt_len(hdr: Seq<u8>, items: Seq<Value>)
+    ensures fmt_bw_items(hdr, items).len() == hdr.len() + 12 * items.len()
+    decreases items.len()
+{
+    if items.len() > 0 { lemma_fmt_len(hdr, items.drop_last()); }
+}
+/// the header is a prefix of the section
+pub proof fn lemma_fmt_prefix(hdr: Seq<u8>, items: Seq<Value>, k: int)
+    requires 0 <= k < hdr.len()
+    ensures fmt_bw_items(hdr, items).len() >= hdr.len(), fmt_bw_items(hdr, items)[k] == hdr[k]
+    decreases items.len()
+{
+    lemma_fmt_len(hdr, items);
+    if items.len() > 0 { lemma_fmt_len(hdr, items.drop_last()); lemma_fmt_prefix(hdr, items.drop_last(), k); }
+}
+/// the 12 bytes of item i sit at hdr.len() + 12*i
+pub proof fn lemma_fmt_item_at(hdr: Seq<u8>, items: Seq<Value>, i: int)
+    requires 0 <= i < items.len()
+    ensures ({
+        let f = fmt_bw_items(hdr, items); let o = hdr.len() + 12 * i;
+        &&& f.len() == hdr.len() + 12 * items.len()
+        &&& f.subrange(o, o + 4) == le32(items[i].start)
+        &&& f.subrange(o + 4, o + 8) == le32(items[i].end)
+        &&& f.subrange(o + 8, o + 12) == le32(f32_bits(items[i].value))
+    })
+    decreases items.len()
+{
+    let f = fmt_bw_items(hdr, items); let o = hdr.len() + 12 * i;
+    let p = fmt_bw_items(hdr, items.drop_last());
+    lemma_fmt_len(hdr, items); lemma_fmt_len(hdr, items.drop_last());
+    if i == items.len() - 1 {
+        assert(f.subrange(o, o + 4) =~= le32(items[i].start));
+        assert(f.subrange(o + 4, o + 8) =~= le32(items[i].end));
+        assert(f.subrange(o + 8, o + 12) =~= le32(f32_bits(items[i].value)));
+    } else {
+        lemma_fmt_item_at(hdr, items.drop_last(), i);
+        assert(items.drop_last()[i] == items[i]);
+        assert(f.subrange(o, o + 4) =~= p.subrange(o, o + 4));
+        assert(f.subrange(o + 4, o + 8) =~= p.subrange(o + 4, o + 8));
+        assert(f.subrange(o + 8, o + 12) =~= p.subrange(o + 8, o + 12));
+    }
+}
+/// the 24 header bytes decode (little-endian) to the fields the writer put there
+pub proof fn lemma_header_fields(c: u32, s: u32, e: u32, n: u16)
+    ensures ({
+        let h = bw_header(c, s, e, n);
+        &&& h.len() == 24
+        &&& d32(false, h, 0) == c && d32(false, h, 4) == s && d32(false, h, 8) == e
+        &&& d32(false, h, 12) == 0 && d32(false, h, 16) == 0
+        &&& h[20] == 1 && h[21] == 0 && d16(false, h, 22) == n
+    })
+{
+    let h = bw_header(c, s, e, n);
+    assert(h.len() == 24);
+    assert(h.subrange(0, 4) =~= le32(c)); lemma_d32_embedded(false, h, 0, c);
+    assert(h.subrange(4, 8) =~= le32(s)); lemma_d32_embedded(false, h, 4, s);
+    assert(h.subrange(8, 12) =~= le32(e)); lemma_d32_embedded(false, h, 8, e);
+    assert(h.subrange(12, 16) =~= le32(0u32)); lemma_d32_embedded(false, h, 12, 0u32);
+    assert(h.subrange(16, 20) =~= le32(0u32)); lemma_d32_embedded(false, h, 16, 0u32);
+    assert(h.subrange(22, 24) =~= le16(n)); lemma_d16_embedded(false, h, 22, n);
+}
+/// a full-span query keeps everything: no item is filtered out or altered
+pub proof fn lemma_fc_identity(items: Seq<Value>, len: u32)
+    requires forall|i: int| 0 <= i < items.len() ==> (#[trigger] items[i]).end > 0 && items[i].start < len && items[i].end <= len
+    ensures filter_clip(items, 0, len) == items
+    decreases items.len()
+{
+    if items.len() > 0 {
+        let p = items.drop_last();
+        assert forall|i: int| 0 <= i < p.len() implies (#[trigger] p[i]).end > 0 && p[i].start < len && p[i].end <= len by { assert(p[i] == items[i]); }
+        lemma_fc_identity(p, len);
+        let l = items.last();
+        assert(l == items[items.len() - 1]);
+        assert(clip(l, 0, len) == l);
+        assert(p.push(l) =~= items);
+    } else {
+        assert(items =~= Seq::<Value>::empty());
+    }
+}
+/// C01 codec inverse, per section: the bytes unit bw_enc produces for a batch (uncompressed, or
+/// after the assumed zlib inverse) decode -- little-endian, through the reader-side vocabulary
+/// that get_block_values is proved against -- to exactly the batch.
+pub proof fn bw_roundtrip(c: u32, items: Seq<Value>, len: u32)
+    requires
+        batch_ok(items),
+    ensures ({
+        let data = fmt_bw_section(c, items);
+        [[L: rt/size]]
+        &&& data.len() == 24 + 12 * items.len()
+        [[L: rt/header_fields_read_back]]
+        &&& hdr_chrom(false, data) == c && hdr_start(false, data) == items[0].start && hdr_end(false, data) == items.last().end
+        &&& hdr_step(false, data) == 0 && hdr_span(false, data) == 0 && hdr_type(data) == 1 && data[21] == 0
+        &&& hdr_count(false, data) == items.len()
+        [[L: rt/reader_precondition_holds]]
+        &&& wf_items(false, data)
+        [[L: rt/stored_items_are_the_batch]]
+        &&& raw_items(false, data) == items
+        [[L: rt/full_span_query_returns_the_batch]]
+        &&& (forall|i: int| 0 <= i < items.len() ==> (#[trigger] items[i]).end > 0 && items[i].start < len && items[i].end <= len)
+                ==> filter_clip(raw_items(false, data), 0, len) == items
+    }),
+{
+    let n16 = items.len() as u16;
+    let hdr = bw_header(c, items[0].start, items.last().end, n16);
+    let data = fmt_bw_section(c, items);
+    assert(data == fmt_bw_items(hdr, items));
+    lemma_header_fields(c, items[0].start, items.last().end, n16);
+    lemma_fmt_len(hdr, items);
+    assert forall|k: int| 0 <= k < 24 implies data[k] == hdr[k] by { lemma_fmt_prefix(hdr, items, k); }
+    assert(n16 == items.len());
+    let raw = raw_items(false, data);
+    assert(raw.len() == items.len());
+    assert forall|i: int| 0 <= i < items.len() implies raw[i] == items[i] by {
+        lemma_fmt_item_at(hdr, items, i);
+        let o = 24 + 12 * i;
+        lemma_d32_embedded(false, data, o, items[i].start);
+        lemma_d32_embedded(false, data, o + 4, items[i].end);
+        lemma_d32_embedded(false, data, o + 8, f32_bits(items[i].value));
+        assert(raw[i] == raw1(false, data, i));
+        ax_f32_bits_inv(items[i].value);
+    }
+    assert(raw =~= items);
+    if forall|i: int| 0 <= i < items.len() ==> (#[trigger] items[i]).end > 0 && items[i].start < len && items[i].end <= len {
+        lemma_fc_identity(items, len);
+    }
 }
 
 //@extract fn bigtools/src/bbi/bigwigread.rs get_block_values
@@ -131,7 +333,7 @@ pub proof fn lemma_step_mul(k: int, step: int)
 //@sub /Ok\(Some\(values\.into_iter\(\)\)\)/ => Ok(Some(values))
 //@sub /let block_item_data: &\[u8; 12\] = bytes\[(\w+)\.\.\w+ \+ 12\]\.try_into\(\)\.unwrap\(\);/ => let block_item_data: [u8; 12] = arr12(&bytes, \1);
 //@sub /assert\(bytes\.len\(\) >= / => assert(bytes.rem().len() >=
-//@sub /(value\.\w+)\.(max|min)\((\w+)\)/ => \2_u32(\1, \3) min=6
+//@sub /(value\.\w+)\.(max|min)\((\w+)\)/ => \2_u32(\1, \3) min=0
 //@sub /for _ in 0\.\.item_count/ => for k in 0..item_count min=2
 //@ret r
 //@sig
@@ -179,6 +381,7 @@ pub proof fn lemma_step_mul(k: int, step: int)
 //@at /let mut value = Value \{/ nth=1 before
                 proof {
                     let b = block_item_data@;
+                    [[L: loop1/item_bytes_are_data_24_plus_12i]]
                     assert(b[0] == d[24 + 12 * i] && b[1] == d[24 + 12 * i + 1] && b[2] == d[24 + 12 * i + 2] && b[3] == d[24 + 12 * i + 3]);
                     assert(b[4] == d[24 + 12 * i + 4] && b[5] == d[24 + 12 * i + 5] && b[6] == d[24 + 12 * i + 6] && b[7] == d[24 + 12 * i + 7]);
                     assert(b[8] == d[24 + 12 * i + 8] && b[9] == d[24 + 12 * i + 9] && b[10] == d[24 + 12 * i + 10] && b[11] == d[24 + 12 * i + 11]);
@@ -234,7 +437,7 @@ pub proof fn lemma_step_mul(k: int, step: int)
                     assert(chrom_start == raw[k as int].start && chrom_end == raw[k as int].end && value == raw[k as int].value); [[L: loop3/item_is_kth_step_plus_span]]
                     lemma_fc_step(raw, k as int, start, end);
                 }
-//@at /\*known_offset = block\.offset \+ block\.size;/ before
+//@at /\*known_offset = / before
     proof {
         assert(raw.subrange(0, raw.len() as int) =~= raw);
     }
